@@ -18,7 +18,7 @@ from .engine_p import ProcessSim, bootstrap
 
 ID = "C08"
 ENGINE = "P"
-RUNS = {"quick": 96, "thorough": 3000}
+RUNS = {"quick": 240, "thorough": 4000}
 BATCH_WALL_CAP = {"quick": 2400, "thorough": 8 * 3600}
 RUN_WALL_CAP = 900
 RECHECK = {"quick": 3, "thorough": 30}
@@ -32,8 +32,8 @@ RULE = (
 FAULT_KEYS = ["schedule_choices", "multi_core_runs", "cores_gt_loci", "locus_order", "locus_subset", "region_single", "prior_work", "proc_rng_init",
               "clock_jump", "small_stdout_buffer", "buffer_full_write", "failing_locus_injected", "failing_locus_real", "fork_unflushed"]
 PROBE_KEYS = ["runs_total", "multi_core_runs", "failing_locus_in_worker", "failing_locus_single_core", "empty_block", "records_compared",
-              "header_compared", "midnight_between_header_and_records", "programs_assemble", "programs_call", "programs_call_exact", "programs_call_pedigree"]
-OPTIONAL_PROBES = {"quick": ("midnight_between_header_and_records",), "thorough": ()}
+              "header_compared", "torn_tail_on_failure", "programs_assemble", "programs_call", "programs_call_exact", "programs_call_pedigree"]
+OPTIONAL_PROBES = {"quick": ("torn_tail_on_failure",), "thorough": ()}
 COMPONENTS = {
     "real": ["mchap.application.{assemble,call,call_exact,call_pedigree}.program.cli / run_stdout / _run_stdout_multi_core / _worker / _writer / call_locus (compiled, JIT on)",
              "pysam on real BAM / VCF / FASTA / BED files", "the compiled samplers with their own seeded RNGs", "record formatting"],
